@@ -735,11 +735,18 @@ def check_escape(ck, it, func, allowed=DEFAULT_OK, rule="E-ESC", ignore_kinds=()
         if it.exc_matches(exc, allowed):
             ck.proved(rule, func, cons, f"{short} is in the documented set", nontrivial=False)
             continue
-        if not feasible(r["facts"]):
+        st_, m_ = budgeted_prove(r["facts"], FALSE)
+        if st_ == "proved":
             ck.proved(rule, func, cons, f"{short} unreachable: path condition contradictory")
             continue
-        ck.refuted(rule, func, cons, f"{short} can escape (kind {r['kind']}, call path {'>'.join(r['stack'][-3:])}); "
-                   f"documented: {', '.join(a.split('.')[-1] for a in allowed)}")
+        if r["kind"] in ("attr", "key") and st_ != "refutable":
+            # a modelled may-raise operation (attribute of a possibly-None value, dictionary lookup) on a path that is
+            # neither proven dead nor shown alive by a concrete input: undecided, not a violation
+            ck.unknown(rule, func, cons, f"{short} (kind {r['kind']}) on a path whose feasibility is not decided: {str(m_)[:120]}")
+            continue
+        wit = f" (input {{{', '.join(f'{show(k)[:30]}={v}' for k, v in list(m_.items())[:5])}}})" if st_ == "refutable" and isinstance(m_, dict) else ""
+        ck.refuted(rule, func, cons, f"{short} can escape (kind {r['kind']}, call path {'>'.join(r['stack'][-3:])}){wit}; "
+                   f"documented: {', '.join(a.split('.')[-1] for a in allowed)}", witness=m_ if st_ == "refutable" and isinstance(m_, dict) else None)
     return n
 
 
